@@ -107,6 +107,26 @@ void threader(const std::string &file, long K, long n, const std::string &log) {
     _exit(0);
 }
 
+// one long-lived process: entity creations of every kind with `raw` direct calls of util::createId() spread between them (the
+// generator every creation path uses), so that one execution context draws many thousands of ids
+void longRunner(const std::string &file, long n, long raw, const std::string &log) {
+    std::ofstream out(log);
+    std::string proc = "p0";
+    out << json{{"e", "Start"}, {"p", proc}, {"sec", (long) time(nullptr)}}.dump() << "\n";
+    try {
+        nix::File f = nix::File::open(file, nix::FileMode::Overwrite);
+        long batches = 4, per = raw / batches;
+        for (long bno = 0; bno < batches; bno++) {
+            createEntities(f, file, proc, n / batches, out, bno == 0, bno == 0 ? "" : "y" + std::to_string(bno));
+            for (long i = 0; i < per; i++) { std::string id = nix::util::createId();
+                out << json{{"e", "CreateId"}, {"p", proc}, {"id", id}, {"kind", "raw"}, {"name", ""}, {"file", file}, {"wellformed", wellFormed(id)}}.dump() << "\n"; }
+        }
+        f.close();
+    } catch (const std::exception &e) { out << json{{"e", "Error"}, {"p", proc}, {"what", e.what()}}.dump() << "\n"; }
+    out.close();
+    _exit(0);
+}
+
 json handle(Ctx &c, const json &rec) {
     std::string sched = rec["schedule"]; long K = rec["procs"], N = rec["ids"];
     std::string trace = rec["trace"];
@@ -146,6 +166,12 @@ json handle(Ctx &c, const json &rec) {
             if (sched == "fork") for (long k = 0; k < K; k++) logs.push_back(c.path("ids_fork_" + std::to_string(k) + ".log"));
             pid_t pid = fork();
             if (pid == 0) { if (sched == "fork") forker(c, c.path("ids_main.nix"), K, N, log); else threader(c.path("ids_main.nix"), K, N, log); }
+            int st; waitpid(pid, &st, 0);
+        }
+        else if (sched == "long_run") {
+            std::string log = c.path("ids_main.log"); logs.push_back(log);
+            pid_t pid = fork();
+            if (pid == 0) longRunner(c.path("ids_main.nix"), N, rec.value("raw", 9000L), log);
             int st; waitpid(pid, &st, 0);
         }
         for (auto &l : logs) collect(l);
